@@ -96,11 +96,9 @@ theorem read_blocks (cv : Int → Option Int) (h : Heap) (src : Buf) (dst : List
 /-- appending within capacity: same number of blocks, the same header object is updated -/
 theorem append_in_place_blocks (h : Heap) (dst src : Buf) (self : Bool) (g : Nat)
     (hch : dst.ch = src.ch) (hwd : dst.wf h) (hws : src.wf h) (hal : dst.ch = 0 ∨ dst.cap % dst.ch = 0)
-    (hfit : dst.len + src.len ≤ dst.cap) (hself : self = true → src = dst)
-    (hdis : self = false → (src.blk ≠ dst.blk ∨ src.off + src.len ≤ dst.off + dst.len ∨
-              dst.off + dst.len + src.len ≤ src.off)) :
+    (hfit : dst.len + src.len ≤ dst.cap) (hself : self = true → src = dst) :
     SameBlocks h (dst.append h src self g) := by
-  rw [C03.append_in_place h dst src self g hch hwd hws hal hfit hself hdis]
+  rw [C03.append_in_place h dst src self g hch hwd hws hal hfit hself]
   exact storeList_blocks _ _ _ _
 
 /-- `Slice` does not touch the heap at all: it is a function of the header only; it creates one header -/
